@@ -64,7 +64,7 @@ CFG = {
                   "fit_no_upscale_aspect_std: fit, no upscale and aspect for every image and box below 2^26 per dimension WITHOUT the hypothesis Sound, from the standard model of floating-point arithmetic by exact integer reasoning (sound_in_range). "
                   "Round 4: the kitty upload bodies and the block Draw loops are interpreted from regenerated statement forms (kitty_resize_body_eq_model, kitty_write_body_eq_model - semantic, block_draw_body_eq_model for every image); render's placement stretch is interpreted "
                   "in SOURCE ORDER (render_order_shape) and refined to an order-sensitive terminal: terminal_table_is_last_frame / terminal_shows_what_was_drawn - for ALL histories of Resize/Draw/Clear/Render/Refresh whose frames hold no image twice at one origin in two sizes, "
-                  "the terminal's placement table (commands applied in emission order) is exactly the table of the last frame; order_matters (the loops swapped: false); strict_terminal_table_is_last_frame (the same on a terminal that drops the placements of a retransmitted image, when no placement is kept while its image has new data waiting); placement_id_injective over the regenerated id expression; data_is_latest / written_with_latest_data - all histories, "
+                  "the terminal's placement table (commands applied in emission order) is exactly the table of the last frame; terminal_table_mixed (the same for histories that mix kitty and sixel images: the kitty table = the kitty placements of the last frame); order_matters (the loops swapped: false); strict_terminal_table_is_last_frame (the same on a terminal that drops the placements of a retransmitted image, when no placement is kept while its image has new data waiting); placement_id_injective over the regenerated id expression; data_is_latest / written_with_latest_data - all histories, "
                   "no hypothesis: a written placement finds the data of the image's last successful Resize on the terminal (re-upload after a second Resize); half_pipeline_translucent / full_pipeline_translucent - ONE statement per renderer for the colours of every cell of every "
                   "stored NRGBA image, scaled or not, translucent included (decision by the source alphas against 50 AND colours standing for the source pixels under the cell within 255/a + 1 levels); generic_path_eq_fast_path (sources of other types under the stated hypothesis SameAs, "
                   "gray_same_as_nrgba proved); half_pipeline_any_source / full_pipeline_any_source / half_pipeline_any_opaque_source - the renderers on a source of ANY concrete type given by its At().RGBA() (JPEG -> *image.YCbCr, Gray, Paletted, 16-bit; scaled or not): the property's table / mean on the "
